@@ -45,6 +45,7 @@ type pipelineStateMachine struct {
 	completedCallbackFn func(err error)          // pipeline execute completed will invoke
 	mutex               sync.Mutex
 	completed           atomic.Bool
+	firstErr            error // first error of a completed stage, guarded by mutex
 
 	tracker *trackerpkg.StageTracker
 }
@@ -93,6 +94,10 @@ func (sm *pipelineStateMachine) executeStage(parentStageID, stageID string, stag
 // completeStage tracks stage complete execution state.
 func (sm *pipelineStateMachine) completeStage(stageID string, err error) {
 	sm.mutex.Lock()
+	if err != nil && sm.firstErr == nil {
+		// remember the failure, the stage which completes last is not always the one that failed
+		sm.firstErr = err
+	}
 	if s, ok := sm.stages[stageID]; ok {
 		var errMsg string
 		if err != nil {
@@ -115,7 +120,11 @@ func (sm *pipelineStateMachine) completeStage(stageID string, err error) {
 	sm.mutex.Unlock()
 
 	if sm.pending.Dec() == 0 {
-		// check if all stages execute completed
+		// all stages execute completed(every one of them recorded its error before decreasing pending),
+		// pipeline fails if any stage failed
+		sm.mutex.Lock()
+		err = sm.firstErr
+		sm.mutex.Unlock()
 		sm.complete(err)
 	}
 }
